@@ -329,6 +329,26 @@ def t_blank_row(rng, wb):
     return f"blank_row:{s['name']}:{k}x{n}"
 
 
+BLANK_RUN_LIMIT = 60  # pinned: the Excel readers keep interior runs of up to 60 blank rows (61 = end of data)
+
+
+def t_blank_run(rng, wb):
+    """A long run of blank rows (just below / at the readers' end-of-data limit) between two data rows."""
+    s = pick_sheet(rng, wb, ("survey", "choices"))
+    if s is None or len(s["rows"]) < 2:
+        return None
+    blank = [all(v in (None, "") for v in r) for r in s["rows"]]
+    sites = [k for k in range(1, len(s["rows"])) if not blank[k - 1] and not blank[k]]
+    if not sites or any(blank):
+        return None  # runs must not merge with blank rows already there
+    k = rng.choice(sites)
+    n = rng.choice([BLANK_RUN_LIMIT - 1, BLANK_RUN_LIMIT, BLANK_RUN_LIMIT])
+    for _ in range(n):
+        s["rows"].insert(k, [None] * len(s["cols"]))
+        s["orig"].insert(k, None)
+    return f"blank_run:{s['name']}:{k}x{n}"
+
+
 def t_extra_sheet(rng, wb):
     name = rng.choice(spell.UNRELATED_SHEETS)
     if any(s["name"].lower() == name.lower() for s in wb["sheets"]):
@@ -377,6 +397,7 @@ TX = {
     "col_perm": t_col_perm,
     "sheet_perm": t_sheet_perm,
     "blank_row": t_blank_row,
+    "blank_run": t_blank_run,
     "extra_sheet": t_extra_sheet,
     "sheet_case": t_sheet_case,
     "unknown_col": t_unknown_col,
